@@ -324,7 +324,9 @@ func (e *kvElection) verifyLeadershipAfterReconnect() {
 	// Resume heartbeat loop if it was stopped
 	// Note: Heartbeat loop should resume automatically, but we verify
 	// Update status to Connected after successful verification
-	if e.connectionMonitor != nil {
+	// A disconnect notified while the verification was running must stay visible
+	// to its grace-period timer, so only a Reconnected status is promoted.
+	if e.connectionMonitor != nil && e.connectionMonitor.Status() == ConnectionStatusReconnected {
 		e.connectionMonitor.SetStatus(ConnectionStatusConnected)
 		// Update connection status metric
 		if e.cfg.Metrics != nil {
